@@ -62,6 +62,11 @@ impl BackendInternal {
     }
 
     fn wait_for_ack(&mut self, hdr: &VhostUserMsgHeader<BackendReq>) -> Result<u64> {
+        #[cfg(feature = "verif-hooks")]
+        crate::vhost_user::verif_hooks::hold(
+            "backend_req.wait_for_ack",
+            hdr.get_code().map_or(0, |c| u64::from(u32::from(c))),
+        );
         self.check_state()?;
         if !self.reply_ack_negotiated {
             return Ok(0);
